@@ -14,6 +14,10 @@ SignClauses(r) ==
   << <<"signature-strict-der", r.out.k = "ret" /\ g.der>>,
      <<"signature-low-s", r.out.k = "ret" => g.lows>>,
      <<"signature-verifies", r.out.k = "ret" => g.verifies>> >>
+\* many signatures, judged on their encoding only (no curve arithmetic): strict DER and low S
+SignFormClauses(r) ==
+  << <<"signatures-strict-der-and-low-s",
+       \A i \in 1..Len(r.out.sigs) : LET p == ParseStrict(r.out.sigs[i]) IN p.ok /\ LowS(S256, p.s)>> >>
 VerifyClauses(r) ==
   LET v == VerifyDer(r.in.pub, r.in.digest, r.in.sig) IN
   IF v = "not-strict-der" THEN <<>>
@@ -35,6 +39,7 @@ Clauses(r) ==
     [] r.op = "key.wif" -> WifClauses(r)
     [] r.op = "key.sign" -> SignClauses(r)
     [] r.op = "key.verify" -> VerifyClauses(r)
+    [] r.op = "key.signform" -> SignFormClauses(r)
     [] r.op = "key.valid" -> ValidClauses(r)
     [] r.op = "msg.sign" -> MsgSignClauses(r)
     [] r.op = "msg.verify" -> MsgVerifyClauses(r)
